@@ -207,8 +207,9 @@ func vh_ndp_request() {
 	vassert(f.RemoteLink == tcpip.LinkAddress("\xff\xff\xff\xff\xff\xff"), "the request is broadcast at the link layer")
 	vassert(len(h) == 72 && h[6] == 58 && h[40] == 135, "it is a neighbour solicitation")
 	vassert(vhSame(h[8:24], []byte(local)), "from the local address")
-	sn := header.SolicitedNodeAddr(addr)
-	vassert(vhSame(h[24:40], []byte(sn)), "to the target's solicited-node multicast address")
+	// RFC 4291 2.7.1, written out independently: ff02::1:ffXX:XXXX with the low 24 bits of the target
+	sn := append([]byte{0xff, 0x02, 0, 0, 0, 0, 0, 0, 0, 0, 0, 0x01, 0xff}, addr[13], addr[14], addr[15])
+	vassert(vhSame(h[24:40], sn), "to the target's solicited-node multicast address")
 	vassert(vhSame(h[48:64], []byte(addr)) && h[64] == 1 && h[65] == 1 && vhSame(h[66:72], []byte(vhMAC)), "naming the target and carrying the source link address")
 	vassert(int(h[4])<<8|int(h[5]) == 32, "payload length 32")
 	vreach("request")
